@@ -242,7 +242,7 @@ theorem tailDecl_space : ∀ (its : List HItem), tailDecl its ++ [32] = 32 :: it
 
 /-- the text of a declaration behind `declare `, which is also the text of the header of a definition behind `define ` and in front of ` {` -/
 def sigString (f : Func) : Bytes :=
-  flagsString kLead f.lead ++ tyString f.ret ++ [32] ++ Enc.globalName f.name ++ [40] ++ paramsString f.params ++ [41] ++ tailDecl (itemsOf f.tail)
+  flagsString kLead f.lead ++ tyString f.ret ++ [32] ++ Enc.globalName f.name ++ [40] ++ paramsString (zipA f.params f.pattrs) ++ [41] ++ tailDecl (itemsOf f.tail)
 
 theorem headerString_sig (f : Func) : headerString f = sDefine ++ sigString f ++ [32, 123] := by
   have := tailDecl_space (itemsOf f.tail)
@@ -251,7 +251,7 @@ theorem headerString_sig (f : Func) : headerString f = sDefine ++ sigString f ++
   have e : tailDecl (itemsOf f.tail) ++ [32, 123] = (tailDecl (itemsOf f.tail) ++ [32]) ++ [123] := by simp
   rw [e, this]; simp
 
-theorem readDecl_print (f : Func) (h : headerOK f) : readDecl (declString f) = some (f.lead, f.ret, f.name, f.params, f.tail) := by
+theorem readDecl_print (f : Func) (h : headerOK f) : readDecl (declString f) = some (f.lead, f.ret, f.name, zipA f.params f.pattrs, f.tail) := by
   have e : declString f = sDeclare ++ sigString f := by
     simp [declString, sigString]
   rw [readDecl, e, TyParse.stripPrefix_append]
@@ -291,20 +291,29 @@ theorem mdWF_sound (useHex : Int → Bool) (f : Func) (h : mdWF useHex f = true)
   simp only [instsOf, List.mem_append, List.mem_singleton] at this
   exact ⟨fun i hi => mdInstOKB_sound useHex i (this i (Or.inl hi)), mdInstOKB_sound useHex _ (this _ (Or.inr rfl))⟩
 
+theorem pattrsOKB_sound (f : Func) (h : pattrsOKB f = true) : f.pattrs.length = f.params.length ∧ ∀ a ∈ f.pattrs, ∀ j ∈ a, j < kParamAttr.length := by
+  simp only [pattrsOKB, Bool.and_eq_true, beq_iff_eq, List.all_eq_true, decide_eq_true_eq] at h
+  exact h
+
 theorem readFunc_print (useHex : Int → Bool) (f : Func) (h : wfSyn f = true) (hmd : mdWF useHex f = true) : readFunc (printFunc useHex f) = some f := by
+  simp only [wfSyn, Bool.and_eq_true] at h
+  obtain ⟨h, hpa⟩ := h
+  obtain ⟨hlen, hpos⟩ := pattrsOKB_sound f hpa
   have htail : tailFieldsOK f.tail := by
-    simp only [wfSyn, Bool.and_eq_true] at h
+    simp only [wfSyn0, Bool.and_eq_true] at h
     exact tailOK_sound f.tail h.2
-  simp only [wfSyn, leadOK, Bool.and_eq_true, Bool.not_eq_true', List.all_eq_true, decide_eq_true_eq, Option.isNone_iff_eq_none] at h
+  simp only [wfSyn0, leadOK, Bool.and_eq_true, Bool.not_eq_true', List.all_eq_true, decide_eq_true_eq, Option.isNone_iff_eq_none] at h
   obtain ⟨⟨⟨⟨⟨hn, hp⟩, hb⟩, hl, _⟩, hrest⟩, _⟩ := h
   have hname : f.name ≠ [] := by intro e; rw [e] at hn; simp at hn
-  have hok : headerOK f := ⟨hname, fun p hp' => identOKB_sound _ (hp p hp'), hl, hrest, htail⟩
+  have hok : headerOK f := ⟨hname, zipA_ok f.params f.pattrs (fun p hp' => identOKB_sound _ (hp p hp')) hpos, hl, hrest, htail⟩
+  have hz1 := zipA_fst f.params f.pattrs
+  have hz2 := zipA_snd f.params f.pattrs hlen
   by_cases hbl : f.blocks = []
   · -- a declaration
-    obtain ⟨fr, fn, fp, fb, fl, ft⟩ := f
-    simp only at hbl
+    obtain ⟨fr, fn, fp, fb, fl, ft, fa⟩ := f
+    simp only at hbl hz1 hz2
     subst hbl
-    simp only [printFunc, List.isEmpty_nil, if_true, readFunc, readDecl_print _ hok]
+    simp only [printFunc, List.isEmpty_nil, if_true, readFunc, readDecl_print _ hok, hz1, hz2]
   · have hh := readHeader_print f hok
     have hbs := readBlocks_print useHex f.blocks hbl (fun b hb' => blockOKB_sound b (hb b hb')) (mdWF_sound useHex f hmd)
       ((blocksLines useHex f.blocks ++ [[125]]).length + 1) (by omega)
@@ -318,7 +327,7 @@ theorem readFunc_print (useHex : Int → Bool) (f : Func) (h : wfSyn f = true) (
       have e : headerString f :: blocksLines useHex f.blocks ++ [[125]] = headerString f :: (l :: ls) := by
         rw [List.cons_append, hls]
       rw [e]
-      simp only [readFunc, hh, hbs]
+      simp only [readFunc, hh, hbs, hz1, hz2]
 
 /-! ### translation -/
 
@@ -474,7 +483,9 @@ theorem fillBlocks_id : ∀ (bs : List Block) (l : List Numbering.Slot), (∀ b 
       fillBlocks_id bs _ (fun x hx => h x (by simp [hx]))]
 
 theorem fill_id (f : Func) (l : List Numbering.Slot) (h : wfSyn f = true) : fill f l = f := by
-  simp only [wfSyn, Bool.and_eq_true, List.all_eq_true] at h
+  simp only [wfSyn, Bool.and_eq_true] at h
+  replace h := h.1
+  simp only [wfSyn0, Bool.and_eq_true, List.all_eq_true] at h
   obtain ⟨⟨⟨⟨⟨_, hp⟩, hb⟩, _⟩, _⟩, _⟩ := h
   unfold fill
   simp only [fillParams_id f.params l hp, fillBlocks_id f.blocks _ hb]
@@ -483,8 +494,8 @@ theorem translateIn_wf (ge : GEnv) (f : Func) (hs : wfSyn f = true) (h : wfSemIn
   simp only [wfSemIn, Bool.and_eq_true, Bool.not_eq_true'] at h
   obtain ⟨⟨⟨⟨⟨⟨⟨⟨hd, hu⟩, hl⟩, hn⟩, hc⟩, ht⟩, hg⟩, hcalls⟩, hpads⟩ := h
   have hlead : leadOK f.lead = true := by
-    simp only [wfSyn, Bool.and_eq_true] at hs
-    exact hs.1.1.2
+    simp only [wfSyn, wfSyn0, Bool.and_eq_true] at hs
+    exact hs.1.1.1.2
   simp only [translateIn, hlead, if_true]
   unfold translateCore
   have hp := Props.C08.parser_accepts_exactly_llvm (slotsOf f) 0
